@@ -90,8 +90,14 @@ def apply_reform(params, functions, reform):
         p2 = copy.deepcopy(params)
         p2[reform["group"]] = perturb(params[reform["group"]], "mul")
     if reform.get("function") and reform["function"] in functions:
-        f2 = dict(functions)
-        f2[reform["function"]] = modified(functions[reform["function"]])
+        g = modified(functions[reform["function"]])
+        if reform.get("form") == "list_func":  # the list forms hand the caller's environment dict itself to the call
+            f2 = [functions, g]
+        elif reform.get("form") == "list_dict":
+            f2 = [functions, {reform["function"]: g}]
+        else:
+            f2 = dict(functions)
+            f2[reform["function"]] = g
     return p2, f2
 
 
@@ -253,7 +259,8 @@ def run_history(history):
                         targets = [*targets, "verif_lohn_m_hh", "verif_kinder_des_elternteils"]
                     s_snap = copy.deepcopy(kw)
                 p_snap = copy.deepcopy(p)
-                f_snap = dict(f)
+                f_dict = f[0] if isinstance(f, list) else f
+                f_snap = dict(f_dict)
                 t_snap = list(targets)
                 with warnings.catch_warnings():
                     warnings.simplefilter("ignore")
@@ -273,7 +280,7 @@ def run_history(history):
                 bad = env.deep_equal(p_snap, p, "params")
                 if bad:
                     rec["findings"].append(f"mutation:params: {bad}")
-                if f_snap != f or any(f_snap[k] is not f[k] for k in f):
+                if f_snap != f_dict or any(f_snap.get(k) is not f_dict[k] for k in f_dict):
                     rec["findings"].append("mutation:functions")
                 if t_snap != targets:
                     rec["findings"].append("mutation:targets")
